@@ -848,6 +848,13 @@ Proof.
   - exact (capacity_own st nx v (Some n) true r D L Hr Hinv).
   - exact (capacity_own st nx v None false r D L Hr Hinv).
   - exact (capacity_own st nx v None false r D L Hr Hinv).
+  - (* OSpareWrite: k values created, all of them visible *)
+    unfold sp_spare_write in Hr. destruct (get_a v st) as [av|] eqn:Hg; [|discriminate]. injection Hr as <-.
+    cbn [ok_res s_nx s_st s_evs leak_of drops flat_map].
+    replace (nx + k) with (nx + N.of_nat (N.to_nat k)) by lia. rewrite (created_add c nx _ Hnx).
+    pose proof (vis_get_any st v) as Hv. rewrite Hg in Hv. cbn [slot_xs] in Hv.
+    pose proof (vis_set_any st v (Some (with_xs av (a_xs av ++ next_ids c nx (N.to_nat k))))) as H1.
+    cbn [slot_xs with_xs a_xs] in H1. perm_count.
   - (* ODownWrong *)
     destruct (sp_take c st nx v k (match k with TPop => 0 | _ => idx end) KDrop) as [r0|] eqn:E0; [|discriminate].
     assert (Hp : k = TPop -> (match k with TPop => 0 | _ => idx end) = 0) by (intros ->; reflexivity).
